@@ -146,7 +146,7 @@ class C15(Check):
 
     def spaces(self, tier):
         Q = tier == "quick"
-        hi, K = (6, 2) if Q else (7, 3)
+        hi, K = (6, 2) if Q else (7, 2)  # K = 3 only on the small skeletons (second space): placements x second calls x caller edits cost more now
         return [Space(f"skeletons<={hi} wrappers<={K}", {"skeleton_size": hi, "max_wrappers": K},
                       (lambda hi=hi, K=K: [(s, K) for s in
                                             qspaces.enumerate_sources("fusionx", 5, hi, ("e",)) + SKELETONS_EXTRA]),
